@@ -17,15 +17,22 @@ import (
 )
 
 // PoolSize is the number of tables Pool builds.
-const PoolSize = 5
+const PoolSize = 7
 
-// Pool ingests five 300-row (2-block) tables that share blocks pairwise plus is deterministic:
-// variants differ in a row of the second block, of the first block, in both, or everywhere.
+// Pool ingests tables that share blocks pairwise: five 300-row (2-block) variants differing in a
+// row of the second block, of the first block, in both, or everywhere, plus a 255-row and a 510-row
+// table (row counts that are exact multiples of the block size).
 func Pool(db objects.Store) ([][]byte, error) {
 	var sums [][]byte
 	for v := 0; v < PoolSize; v++ {
 		t := gen.Table{Cols: []string{"id", "v"}, PK: []int{0}}
-		for i := 0; i < 300; i++ {
+		n := 300
+		if v == 5 {
+			n = 255
+		} else if v == 6 {
+			n = 510
+		}
+		for i := 0; i < n; i++ {
 			val := "x"
 			if (v == 1 || v == 3) && i == 290 {
 				val = "second-block-changed"
